@@ -417,6 +417,65 @@ fn main() {
             }
             println!("RESULT enum:units-roundtrip {n} identifiers: lookup, Zinc and Hayson round trips agree");
         }
+        // ---- C16 enumerator: every ordered pair of database units: conversion succeeds exactly for equal dimensions (byte units among
+        //      themselves), equals (x*scale_a + offset_a - offset_b) / scale_b, comes back within rounding; anchors with known physical
+        //      values; + and - of Numbers fail exactly for two different units and otherwise keep the common unit; exit 3 on a mismatch
+        "enum:unit-convert" => {
+            use libhaystack::units::get_unit;
+            use libhaystack::val::Number;
+            let mut units: Vec<&'static libhaystack::units::Unit> = vec![];
+            for (_, u) in libhaystack::units::units_generated::UNITS.iter() { if !units.iter().any(|x| std::ptr::eq(*x, *u)) { units.push(*u); } }
+            let close = |a: f64, b: f64| (a - b).abs() <= 1e-9 * (1.0 + a.abs().max(b.abs()));
+            let x = 12.5f64;
+            let mut pairs = 0usize;
+            for a in &units { for b in &units {
+                let same_dim = a.dimensions == b.dimensions || (a.is_byte_unit() && b.is_byte_unit());
+                let r = a.convert_to(x, b);
+                pairs += 1;
+                match r {
+                    Ok(y) => {
+                        let want = ((x * a.scale + a.offset) - b.offset) / b.scale;
+                        let back = b.convert_to(y, a);
+                        if !same_dim || !(close(y, want) || (y.is_nan() && want.is_nan())) || !matches!(back, Ok(z) if close(z, x) || !z.is_finite() || !y.is_finite()) {
+                            println!("RESULT enum:unit-convert {x} {:?} -> {:?} = {y} (expected {want}, same dimension: {same_dim}), back = {back:?}", a.ids, b.ids);
+                            std::process::exit(3);
+                        }
+                    }
+                    Err(_) => if same_dim {
+                        println!("RESULT enum:unit-convert {:?} -> {:?} refused although both measure the same dimension", a.ids, b.ids);
+                        std::process::exit(3);
+                    }
+                }
+            } }
+            let u = |s: &str| get_unit(s).unwrap_or_else(|| panic!("unit {s}"));
+            for (from, v, to, want) in [("celsius", 100.0, "fahrenheit", 212.0), ("celsius", 0.0, "kelvin", 273.15), ("kelvin", 273.15, "fahrenheit", 32.0),
+                                        ("fahrenheit", 212.0, "celsius", 100.0), ("kilowatt", 1.0, "watt", 1000.0), ("hour", 1.0, "second", 3600.0), ("kilometer", 1.0, "meter", 1000.0)] {
+                let got = u(from).convert_to(v, u(to));
+                if !matches!(got, Ok(g) if (g - want).abs() < 1e-6 * (1.0 + want.abs())) {
+                    println!("RESULT enum:unit-convert {v} {from} -> {to} = {got:?}, the physical value is {want}");
+                    std::process::exit(3);
+                }
+            }
+            // + and -: same unit, one side without unit, two different units (incl. different units with the same numeric definition)
+            let mut sums = 0usize;
+            let sample: Vec<&'static libhaystack::units::Unit> = units.iter().copied().filter(|a| units.iter().any(|b| !std::ptr::eq(*a, *b) && a.dimensions == b.dimensions && a.scale == b.scale && a.offset == b.offset)).take(40)
+                .chain(units.iter().copied().take(25)).collect();
+            for a in &sample { for b in &sample {
+                let (na, nb) = (Number::make_with_unit(3.0, a), Number::make_with_unit(2.0, b));
+                let differ = !std::ptr::eq(*a, *b) && **a != **b;
+                for (r, want) in [(na + nb, 5.0), (na - nb, 1.0)] {
+                    sums += 1;
+                    let ok = match &r { Ok(n) => !differ && n.value == want && n.unit == Some(*a), Err(_) => differ };
+                    if !ok { println!("RESULT enum:unit-convert 3 {:?} (+/-) 2 {:?} = {r:?}; different units: {differ}", a.ids, b.ids); std::process::exit(3); }
+                }
+            } }
+            let plain = Number::make(2.0);
+            let with = Number::make_with_unit(3.0, u("meter"));
+            if !matches!(with + plain, Ok(n) if n.value == 5.0 && n.unit == Some(u("meter"))) || !matches!(plain + with, Ok(n) if n.value == 5.0 && n.unit == Some(u("meter"))) {
+                println!("RESULT enum:unit-convert 3m + 2 must keep the unit of the side that has one"); std::process::exit(3);
+            }
+            println!("RESULT enum:unit-convert {pairs} unit pairs, 7 physical anchors, {sums} sums and differences agree");
+        }
         // ---- C05 reader numbers: raw bytes of the harness inputs (which, value) -> the JSON spelling serde_json would hand over
         "json-visit" => {
             let which = unhex(&args[2])[0];
